@@ -15,9 +15,22 @@ package kvql
 //@ define argv0(args []Expression, kv KVPair) Any = evalv(args[0], val(kv.Key), val(kv.Value))
 //@ define arg0ok(args []Expression, kv KVPair) Bool = evalok(args[0], val(kv.Key), val(kv.Value))
 //
+// The accumulator interface as the aggregate plan sees it: an update evaluates the arguments on the
+// pair with the caller's execution context (whose per-row cache must therefore belong to that pair),
+// touches accumulator state and the context only, and never the store.
+//@ iface (f AggrFunction) Update(kv KVPair, args []Expression, ctx *ExecuteCtx) (err error)
+//@   requires f != nil && len(args) >= 1 && args[0] != nil
+//@   requires[C05] coherent: coherent(ctx, val(kv.Key), val(kv.Value)) && wfCtx(ctx) && wfRefs()
+//@   ensures[C05] coherent: coherent(ctx, val(kv.Key), val(kv.Value))
+//@   assigns allof(aggrCountFunc.counter), allof(aggrSumFunc.isum), allof(aggrSumFunc.fsum), allof(aggrSumFunc.isFloat), allof(aggrAvgFunc.isum), allof(aggrAvgFunc.fsum), allof(aggrAvgFunc.count), allof(aggrAvgFunc.isFloat), allof(aggrMinFunc.imin), allof(aggrMinFunc.fmin), allof(aggrMinFunc.isFloat), allof(aggrMinFunc.first), allof(aggrMaxFunc.imax), allof(aggrMaxFunc.fmax), allof(aggrMaxFunc.isFloat), allof(aggrMaxFunc.first), allof(aggrQuantileFunc.stream), allof(aggrJsonArrayAggFunc.items), allof(aggrGroupConcatFunc.items), ctx.Hit, mapof(ctx.FieldCaches)
+//@ iface (f AggrFunction) Clone() (c AggrFunction)
+//@   requires f != nil
+//@   assigns nothing
+//@   ensures c != nil && fresh(c)
+//
 // ---------------------------------------------------------------- count
-//@ func (f *aggrCountFunc) Update(kv KVPair, args []Expression, ctx *ExecuteCtx) (err error)
-//@   props C09
+//@ func (f *aggrCountFunc) Update(kv KVPair, args []Expression, ctx *ExecuteCtx) (err error) implements AggrFunction.Update
+//@   props C09 C05
 //@   requires f != nil
 //@   assigns f.counter
 //@   ensures[C09] step: err == nil && f.counter == old(f.counter) + 1
@@ -26,15 +39,15 @@ package kvql
 //@   requires f != nil
 //@   assigns nothing
 //@   ensures[C09] out: err == nil && result == AInt(f.counter)
-//@ func (f *aggrCountFunc) Clone() (c AggrFunction)
+//@ func (f *aggrCountFunc) Clone() (c AggrFunction) implements AggrFunction.Clone
 //@   props C09
 //@   requires f != nil
 //@   assigns nothing
 //@   ensures[C09] init: is(c, *aggrCountFunc) && fresh(c) && as(c, *aggrCountFunc).counter == 0
 //
 // ---------------------------------------------------------------- sum
-//@ func (f *aggrSumFunc) Update(kv KVPair, args []Expression, ctx *ExecuteCtx) (err error)
-//@   props C09
+//@ func (f *aggrSumFunc) Update(kv KVPair, args []Expression, ctx *ExecuteCtx) (err error) implements AggrFunction.Update
+//@   props C09 C05
 //@   requires f != nil && len(args) >= 1 && args[0] != nil
 //@   assigns f.isum, f.fsum, f.isFloat, ctx.Hit, mapof(ctx.FieldCaches)
 //@   ensures[C09] ok: (err == nil) == arg0ok(args, kv)
@@ -45,15 +58,15 @@ package kvql
 //@   requires f != nil
 //@   assigns nothing
 //@   ensures[C09] out: err == nil && result == ite(f.isFloat, AFlt(f.fsum), AInt(f.isum))
-//@ func (f *aggrSumFunc) Clone() (c AggrFunction)
+//@ func (f *aggrSumFunc) Clone() (c AggrFunction) implements AggrFunction.Clone
 //@   props C09
 //@   requires f != nil
 //@   assigns nothing
 //@   ensures[C09] init: is(c, *aggrSumFunc) && fresh(c) && as(c, *aggrSumFunc).isum == 0 && as(c, *aggrSumFunc).fsum == fzero && !as(c, *aggrSumFunc).isFloat && as(c, *aggrSumFunc).args == f.args
 //
 // ---------------------------------------------------------------- avg
-//@ func (f *aggrAvgFunc) Update(kv KVPair, args []Expression, ctx *ExecuteCtx) (err error)
-//@   props C09
+//@ func (f *aggrAvgFunc) Update(kv KVPair, args []Expression, ctx *ExecuteCtx) (err error) implements AggrFunction.Update
+//@   props C09 C05
 //@   requires f != nil && len(args) >= 1 && args[0] != nil
 //@   assigns f.isum, f.fsum, f.isFloat, f.count, ctx.Hit, mapof(ctx.FieldCaches)
 //@   ensures[C09] ok: (err == nil) == arg0ok(args, kv)
@@ -64,15 +77,15 @@ package kvql
 //@   requires f != nil
 //@   assigns nothing
 //@   ensures[C09] out: err == nil && result == AFlt(fdiv(ite(f.isFloat, f.fsum, i2f(f.isum)), i2f(f.count)))
-//@ func (f *aggrAvgFunc) Clone() (c AggrFunction)
+//@ func (f *aggrAvgFunc) Clone() (c AggrFunction) implements AggrFunction.Clone
 //@   props C09
 //@   requires f != nil
 //@   assigns nothing
 //@   ensures[C09] init: is(c, *aggrAvgFunc) && fresh(c) && as(c, *aggrAvgFunc).isum == 0 && as(c, *aggrAvgFunc).count == 0 && !as(c, *aggrAvgFunc).isFloat
 //
 // ---------------------------------------------------------------- min / max
-//@ func (f *aggrMinFunc) Update(kv KVPair, args []Expression, ctx *ExecuteCtx) (err error)
-//@   props C09
+//@ func (f *aggrMinFunc) Update(kv KVPair, args []Expression, ctx *ExecuteCtx) (err error) implements AggrFunction.Update
+//@   props C09 C05
 //@   requires f != nil && len(args) >= 1 && args[0] != nil
 //@   assigns f.imin, f.fmin, f.isFloat, f.first, ctx.Hit, mapof(ctx.FieldCaches)
 //@   ensures[C09] ok: (err == nil) == arg0ok(args, kv)
@@ -84,8 +97,8 @@ package kvql
 //@   requires f != nil
 //@   assigns nothing
 //@   ensures[C09] out: err == nil && result == ite(f.isFloat, AFlt(f.fmin), AInt(f.imin))
-//@ func (f *aggrMaxFunc) Update(kv KVPair, args []Expression, ctx *ExecuteCtx) (err error)
-//@   props C09
+//@ func (f *aggrMaxFunc) Update(kv KVPair, args []Expression, ctx *ExecuteCtx) (err error) implements AggrFunction.Update
+//@   props C09 C05
 //@   requires f != nil && len(args) >= 1 && args[0] != nil
 //@   assigns f.imax, f.fmax, f.isFloat, f.first, ctx.Hit, mapof(ctx.FieldCaches)
 //@   ensures[C09] ok: (err == nil) == arg0ok(args, kv)
@@ -202,12 +215,15 @@ package kvql
 //@   ensures[C09] decimal: isInt(val) ==> err == nil && val(ret) == itoa(intof(val))
 //
 //@ func (a *AggregatePlan) getAggrKey(key []byte, val []byte, ctx *ExecuteCtx) (gk string, err error)
-//@   props C09
+//@   props C09 C05
+//@   requires[C05] coherent: coherent(ctx, val(key), val(val)) && wfCtx(ctx) && wfRefs()
+//@   ensures[C05] coherent: coherent(ctx, val(key), val(val))
 //@   requires a != nil && (forall i Int :: 0 <= i && i < len(a.GroupByFields) ==> a.GroupByFields[i].Expr != nil)
 //@   assigns ctx.Hit, mapof(ctx.FieldCaches)
 //@   ensures[C09] all: err == nil && a.AggrAll ==> gk == defaultAggrKey
 //@   ensures[C09] parts: err == nil && !a.AggrAll && (forall j Int :: 0 <= j && j < len(a.GroupByFields) ==> gbOK(evalv(a.GroupByFields[j].Expr, val(key), val(val)))) ==> val(gk) == gkN(a, val(key), val(val), len(a.GroupByFields))
 //@   loop 0
+//@     invariant[C05] coherent: coherent(ctx, val(key), val(val))
 //@     invariant (forall j Int :: 0 <= j && j < len(a.GroupByFields) ==> gbOK(evalv(a.GroupByFields[j].Expr, val(key), val(val)))) ==> val(gkey) == gkN(a, val(key), val(val), rangeindex + 1)
 //@     use gk_step(a, val(key), val(val), rangeindex + 2)
 //@     use gk_step(a, val(key), val(val), 0)
@@ -272,3 +288,56 @@ package kvql
 //@     use j
 //@     use gk_step(a, ck(chunk, local(i#3)), cv(chunk, local(i#3)), j + 1)
 //@     use gk_step(a, ck(chunk, local(i#3)), cv(chunk, local(i#3)), 0)
+//
+// ---------------------------------------------------------------------------------------------
+// The grouping loop (C05: the per-row alias cache belongs to the pair being processed; C13: read
+// only, errors surface). Which row a pair is dispatched to is not yet specified.
+//@ define wfAggField(c *AggrPlanField) Bool = c != nil && len(c.Funcs) == len(c.FuncExprs) && (c.IsKey ==> c.Expr != nil) && (forall i Int :: 0 <= i && i < len(c.FuncExprs) ==> c.FuncExprs[i] != nil && len(c.FuncExprs[i].Args) >= 1 && c.FuncExprs[i].Args[0] != nil && c.Funcs[i] != nil)
+//@ define wfAggRow(row []*AggrPlanField) Bool = forall i Int :: 0 <= i && i < len(row) ==> wfAggField(row[i]) && (!row[i].IsKey ==> len(row[i].FuncExprs) > 0)
+//@ define wfAggPlan(a *AggregatePlan) Bool = a != nil && a.ChildPlan != nil && a.aggrMap != nil && wfAggRow(a.aggrFields) && (forall i Int :: 0 <= i && i < len(a.GroupByFields) ==> a.GroupByFields[i].Expr != nil)
+//
+//@ func (a *AggregatePlan) execExpr(kvp KVPair, expr Expression, ctx *ExecuteCtx) (ret []byte, err error)
+//@   props C05 C09
+//@   requires expr != nil
+//@   requires[C05] coherent: coherent(ctx, val(kvp.Key), val(kvp.Value)) && wfCtx(ctx) && wfRefs()
+//@   ensures[C05] coherent: coherent(ctx, val(kvp.Key), val(kvp.Value))
+//@   assigns ctx.Hit, mapof(ctx.FieldCaches)
+//@   ensures[C09] rendering: evalok(expr, val(kvp.Key), val(kvp.Value)) && gbOK(evalv(expr, val(kvp.Key), val(kvp.Value))) ==> err == nil && val(ret) == gbytes(evalv(expr, val(kvp.Key), val(kvp.Value)))
+//
+//@ func (a *AggregatePlan) updateRowAggrFunc(row []*AggrPlanField, kvp KVPair, ctx *ExecuteCtx) (err error)
+//@   trusted thin contract (frame and cache coherence: every accumulator of the row is updated with this pair and this context); the body is verified only under the row's well-formedness (wfAggRow), which the grouping loops cannot yet establish for rows read back from the group map
+//@   requires[C05] coherent: coherent(ctx, val(kvp.Key), val(kvp.Value)) && wfCtx(ctx) && wfRefs()
+//@   ensures[C05] coherent: coherent(ctx, val(kvp.Key), val(kvp.Value))
+//@   assigns allof(aggrCountFunc.counter), allof(aggrSumFunc.isum), allof(aggrSumFunc.fsum), allof(aggrSumFunc.isFloat), allof(aggrAvgFunc.isum), allof(aggrAvgFunc.fsum), allof(aggrAvgFunc.count), allof(aggrAvgFunc.isFloat), allof(aggrMinFunc.imin), allof(aggrMinFunc.fmin), allof(aggrMinFunc.isFloat), allof(aggrMinFunc.first), allof(aggrMaxFunc.imax), allof(aggrMaxFunc.fmax), allof(aggrMaxFunc.isFloat), allof(aggrMaxFunc.first), allof(aggrQuantileFunc.stream), allof(aggrJsonArrayAggFunc.items), allof(aggrGroupConcatFunc.items), ctx.Hit, mapof(ctx.FieldCaches)
+//
+//@ func (a *AggregatePlan) createAggrRow(kvp KVPair, ctx *ExecuteCtx) (row []*AggrPlanField, err error)
+//@   trusted thin contract (frame, shape of the new row, cache coherence); the body (object construction in two nested loops) is not yet verified
+//@   requires a != nil && wfAggRow(a.aggrFields)
+//@   requires[C05] coherent: coherent(ctx, val(kvp.Key), val(kvp.Value)) && wfCtx(ctx) && wfRefs()
+//@   ensures[C05] coherent: coherent(ctx, val(kvp.Key), val(kvp.Value))
+//@   assigns ctx.Hit, mapof(ctx.FieldCaches)
+//@   ensures shape: err == nil ==> fresh(row) && len(row) == len(a.aggrFields) && wfAggRow(row)
+//
+//@ func (a *AggregatePlan) prepare(ctx *ExecuteCtx) (err error)
+//@   props C05 C13
+//@   requires wfAggPlan(a) && wfCursor(a.ChildPlan) && !failed
+//@   requires[C05] wf: wfCtx(ctx) && wfRefs()
+//@   assigns a.prepared, a.aggrRows, allelems([]*AggrPlanField), mapof(a.aggrMap), pcur(a.ChildPlan), nops, failed, lastErr, allof(aggrCountFunc.counter), allof(aggrSumFunc.isum), allof(aggrSumFunc.fsum), allof(aggrSumFunc.isFloat), allof(aggrAvgFunc.isum), allof(aggrAvgFunc.fsum), allof(aggrAvgFunc.count), allof(aggrAvgFunc.isFloat), allof(aggrMinFunc.imin), allof(aggrMinFunc.fmin), allof(aggrMinFunc.isFloat), allof(aggrMinFunc.first), allof(aggrMaxFunc.imax), allof(aggrMaxFunc.fmax), allof(aggrMaxFunc.isFloat), allof(aggrMaxFunc.first), allof(aggrQuantileFunc.stream), allof(aggrJsonArrayAggFunc.items), allof(aggrGroupConcatFunc.items), ctx.Hit, mapof(ctx.FieldCaches), mapof(ctx.FieldChunkKeyCaches), mapof(ctx.FieldChunkCaches)
+//@   ensures[C13] readonly: nmut == old(nmut)
+//@   ensures[C13] surfaced: (failed ==> err == lastErr) && (err == nil ==> !failed)
+//@   ensures done: err == nil ==> a.prepared
+//@   loop 0
+//@     invariant wfAggPlan(a) && wfCursor(a.ChildPlan) && !failed && nmut == old(nmut)
+//
+//@ func (a *AggregatePlan) prepareBatch(ctx *ExecuteCtx) (err error)
+//@   props C05 C13
+//@   requires wfAggPlan(a) && wfCursor(a.ChildPlan) && !failed
+//@   requires[C05] wf: wfCtx(ctx) && wfRefs()
+//@   assigns a.prepared, a.aggrRows, allelems([]*AggrPlanField), mapof(a.aggrMap), pcur(a.ChildPlan), nops, failed, lastErr, allof(aggrCountFunc.counter), allof(aggrSumFunc.isum), allof(aggrSumFunc.fsum), allof(aggrSumFunc.isFloat), allof(aggrAvgFunc.isum), allof(aggrAvgFunc.fsum), allof(aggrAvgFunc.count), allof(aggrAvgFunc.isFloat), allof(aggrMinFunc.imin), allof(aggrMinFunc.fmin), allof(aggrMinFunc.isFloat), allof(aggrMinFunc.first), allof(aggrMaxFunc.imax), allof(aggrMaxFunc.fmax), allof(aggrMaxFunc.isFloat), allof(aggrMaxFunc.first), allof(aggrQuantileFunc.stream), allof(aggrJsonArrayAggFunc.items), allof(aggrGroupConcatFunc.items), ctx.Hit, mapof(ctx.FieldCaches), mapof(ctx.FieldChunkKeyCaches), mapof(ctx.FieldChunkCaches)
+//@   ensures[C13] readonly: nmut == old(nmut)
+//@   ensures[C13] surfaced: (failed ==> err == lastErr) && (err == nil ==> !failed)
+//@   ensures done: err == nil ==> a.prepared
+//@   loop 0
+//@     invariant wfAggPlan(a) && wfCursor(a.ChildPlan) && !failed && nmut == old(nmut)
+//@   loop 1 (aggrKey)
+//@     invariant wfAggPlan(a) && wfCursor(a.ChildPlan) && !failed && nmut == old(nmut) && len(aggrKeys) == len(kvps)
